@@ -179,6 +179,14 @@ def draw_single_params(rng, spec: Spec, desc: dict, *, lazy: bool | None = None,
         p["decay_factor"] = rng.choice([0.2, 0.1])
     if rng.random() < 0.1:
         p["solver_kwargs"] = {}
+    if lazy is None and spec.name in ("EOF", "ExtendedEOF", "OPA") and rng.random() < 0.3:
+        # hardly any oversampling: the randomised solver is then visibly seed-dependent even on small data, so
+        # that the *handling of seeds* shows (same seed, same backend on both sides: still deterministic)
+        p["solver"] = "randomized"
+        p["solver_kwargs"] = {"n_oversamples": rng.choice([0, 1, 2])}
+    if lazy is None and spec.name == "SparsePCA" and rng.random() < 0.5:
+        p["solver"] = "randomized"
+        p["oversample"] = rng.choice([0, 1, 2])
     return p
 
 
